@@ -433,6 +433,20 @@ def run(ck):
         ls = [0.25, 1.5, 2.75]
         for op in single_step_args(lab, rng, ck.n(6, 12)):
             cases.append((w, lab, ps, ls, w.temp if lab[6] == "K" else w.temp - 273.15, [op]))
+    # --- (a2) two-step conversions that can be refused half-way: a fraction / percent loading + a change of the material representation first converts the
+    # material and then re-expresses the loading, which needs the adsorbate's density under a volume basis; in the worlds that LACK a constant the second
+    # step is refused after the first has succeeded (round 6, C02-m11: the two results written one after the other; caught on 2 seeds of 3 only, because
+    # (a) never used these worlds).  Every target material representation from a few fraction / percent states of each such world.
+    for w in w_partial:
+        for lb in ("fraction", "percent"):
+            for m0 in rng.sample(MSTATES, ck.n(2, 6)):
+                pm = rng.choice(PSTATES) if w.props.psat is not None else ("absolute", rng.choice(list(c01.PA)))
+                tu = rng.choice(TSTATES)
+                lab = [pm[0], pm[1], lb, None, m0[0], m0[1], tu]
+                ps = [0.11, 0.52, 0.93] if lab[0] != "absolute" else [1.5, 22.0, 310.0]
+                for mt in MSTATES:
+                    if mt != m0:
+                        cases.append((w, lab, ps, [0.25, 1.5, 2.75], w.temp if tu == "K" else w.temp - 273.15, [("M", (mt[0], mt[1]))]))
     n_single = len(cases)
     # --- (b) histories
     nh = ck.n(60, 400)
